@@ -1,0 +1,45 @@
+//go:build verif
+
+// Verification hooks (build tag verif). Add-only: exposes the unexported synchronisation
+// entry points of package comm to the /verif harness. Nothing here is compiled into a normal build.
+
+package comm
+
+import (
+	"context"
+
+	"github.com/vechain/thor/v2/chain"
+	"github.com/vechain/thor/v2/comm/proto"
+	"github.com/vechain/thor/v2/p2p"
+	"github.com/vechain/thor/v2/p2p/discover"
+)
+
+// verifPeer builds a *Peer over rw exactly as servePeer does (newPeer + Peer.Serve with proto.MaxMsgSize) and
+// starts its IO loop. Calls received from the other side are left unanswered (the hook side is a pure client;
+// refusing them with an error would end the IO loop, as it does for a real peer).
+// The returned channel yields the exit error of Serve; Serve ends when rw.ReadMsg fails, i.e. the caller has
+// to close its message pipe after use.
+func verifPeer(rw p2p.MsgReadWriter) (*Peer, <-chan error) {
+	peer := newPeer(p2p.NewPeer(discover.NodeID{0xc1, 0x9}, "verif-remote", nil), rw)
+	done := make(chan error, 1)
+	go func() {
+		done <- peer.Serve(func(msg *p2p.Msg, _ func(any)) error {
+			return nil
+		}, proto.MaxMsgSize)
+	}()
+	return peer, done
+}
+
+// VerifFindCommonAncestor runs the real findCommonAncestor of repo's best chain against the peer behind rw.
+func VerifFindCommonAncestor(ctx context.Context, repo *chain.Repository, rw p2p.MsgReadWriter, headNum uint32) (uint32, error) {
+	peer, _ := verifPeer(rw)
+	return findCommonAncestor(ctx, repo, peer, headNum)
+}
+
+// VerifDownload runs the real download (ancestor search + three stage pipeline) against the peer behind rw.
+// served yields the exit error of the peer's IO loop (rpc.Serve) once it has ended: the error that made the
+// real code drop the peer, or the read error caused by the caller closing its pipe afterwards.
+func VerifDownload(ctx context.Context, repo *chain.Repository, rw p2p.MsgReadWriter, headNum uint32, handler HandleBlockStream) (served <-chan error, err error) {
+	peer, done := verifPeer(rw)
+	return done, download(ctx, repo, peer, headNum, handler)
+}
